@@ -360,7 +360,8 @@ struct Scn
 				case IV_CLOSE: u.stop = true; API(u.s->close(ec)); break;
 				case IV_DESTROY: u.stop = true; API(u.s.reset()); break;
 				case IV_SUPERSEDE:
-					if (u.rop && u.rop->invocations == 0) udp_receive(u, objid, cannot_complete);
+					// the new operation is of the other receive flavour (wait <-> receive): both occupy the socket's receive side
+					if (u.rop && u.rop->invocations == 0) { u.style = u.style == 2 ? 0 : 2; udp_receive(u, objid, cannot_complete); }
 					if (u.wop && u.wop->invocations == 0) udp_wait_write(u, objid);
 					break;
 				case IV_MOVE:
